@@ -284,3 +284,25 @@ package ecs
 //@   assert   fn locked-fn: worldLocked(m.world)
 //@   assert   FireCreateEntity locked-create: worldLocked(m.world)
 //@   assert   FireCreateEntityRel locked-rel: worldLocked(m.world)
+
+// World.Reset (C16): rejected while the world is locked; otherwise the storage is reset whatever
+// its state (no shortcut for "nothing was created": filters and observers registered on a world
+// without entities are dropped as well) and every resource slot is cleared.
+//@ func (*World).Reset
+//@   serves C16 C07
+//@   requires poolInv(&w.storage.entityPool) && w.storage.observers != nil && obsResetInv(w.storage.observers) && len(w.storage.locks.bitPool.bits) == 64
+//@   requires len(w.storage.entities) >= int(reservedEntities) && len(w.storage.isTarget) >= int(reservedEntities)
+//@   requires len(w.storage.cache.indices) == len(w.storage.cache.filters) && (forall k int :: 0 <= k && k < len(w.storage.cache.filters) ==> w.storage.cache.filters[k].filter != nil)
+//@   requires forall i int :: 0 <= i && i < len(w.storage.archetypes) ==> w.storage.archetypes[i].archetypeData != nil
+//@   panics   exists i uint8 :: m64has(w.storage.locks.locks, i)
+//@   ensures  index: len(w.storage.entities) == int(reservedEntities) && len(w.storage.isTarget) == int(reservedEntities)
+//@   ensures  pool: *epAlive(&w.storage.entityPool) == 0 && w.storage.entityPool.available == 0 && (forall h Entity :: !epIssued(&w.storage.entityPool)[h])
+//@   ensures  observers: forall e int :: 0 <= e && e < 256 ==> !w.storage.observers.hasObservers[e] && len(w.storage.observers.observers[e]) == 0
+//@   ensures  cache: len(w.storage.cache.filters) == 0 && len(w.storage.cache.indices) == 0
+//@   ensures  unregistered: forall k int :: 0 <= k && k < old(len(w.storage.cache.filters)) ==> old(w.storage.cache.filters[k].filter).cache == maxCacheID
+//@   ensures  resources: forall k int :: 0 <= k && k < len(w.resources.resources) ==> w.resources.resources[k] == nil
+
+//@ func (*Resources).reset
+//@   serves C16
+//@   loop 1 invariant cleared: len(r.resources) == old(len(r.resources)) && (forall k int :: 0 <= k && k < __idx ==> r.resources[k] == nil)
+//@   ensures  cleared: forall k int :: 0 <= k && k < len(r.resources) ==> r.resources[k] == nil
